@@ -57,7 +57,8 @@ func parseSSBindAddr(ssRemoteHost string, ssRemotePort string, ckBindAddr *[]net
 			// if config listens on one ip version but ss wants to listen on both,
 			// listen on both
 			if ssBindAddr.String() == ":"+ssRemotePort {
-				shouldAppend = true
+				// this entry now stands for both ip versions; appending ssBindAddr as well would bind the port twice
+				shouldAppend = false
 				(*ckBindAddr)[i] = ssBindAddr
 			}
 		}
@@ -65,6 +66,16 @@ func parseSSBindAddr(ssRemoteHost string, ssRemotePort string, ckBindAddr *[]net
 	if shouldAppend {
 		*ckBindAddr = append(*ckBindAddr, ssBindAddr)
 	}
+	// 0.0.0.0:port and [::]:port may both have been replaced by :port
+	seen := make(map[string]bool)
+	deduped := (*ckBindAddr)[:0]
+	for _, addr := range *ckBindAddr {
+		if !seen[addr.String()] {
+			seen[addr.String()] = true
+			deduped = append(deduped, addr)
+		}
+	}
+	*ckBindAddr = deduped
 	return nil
 }
 
